@@ -36,11 +36,14 @@ def project(cs, evs):
 # model alphabet -> real keys (emacs)
 EMACS = {"ins1": b"a", "ins2": b"b", "ins3": b" ", "del": b"\x7f", "rub": b"\x17", "yank": b"\x19", "kill": b"\x0b", "back": b"\x02",
          "fwd": b"\x06", "bol": b"\x01", "eol": b"\x05", "undo": b"\x1f", "redo": b"\x1eua", "prev": b"\x1b[A", "next": b"\x1b[B",
-         "twd": b"\x1bt", "upc": b"\x1bu", "killw": b"\x1bd", "revert": b"\x1br", "tab": b"\t"}
+         "twd": b"\x1bt", "upc": b"\x1bu", "killw": b"\x1bd", "revert": b"\x1br", "tab": b"\t",
+         # with numeric arguments: the intermediate buffers of a repeated command are never displayed
+         "del2": b"\x1b2\x7f", "ins3": b"\x1b3a", "killw2": b"\x1b2\x1bd", "rub2": b"\x1b2\x17", "dch2": b"\x1b2\x04", "upc2": b"\x1b2\x1bu", "twd2": b"\x1b2\x1bt"}
 # vi-command alphabet (typing happens through i ... ESC groups)
 VI = {"ityp": [b"i", b"a", b"b", b"\x1b"], "atyp": [b"A", b" ", b"c", b"\x1b"], "x": [b"x"], "dw": [b"d", b"w"], "db": [b"d", b"b"], "D": [b"D"],
       "p": [b"p"], "P": [b"P"], "h": [b"h"], "l": [b"l"], "0": [b"0"], "undo": [b"u"], "redo": [b"\x1eua"], "viredo": [b"\x1eub"],
-      "k": [b"k"], "j": [b"j"], "r": [b"r", b"z"], "tilde": [b"~"], "cw": [b"c", b"w", b"q", b"\x1b"]}
+      "k": [b"k"], "j": [b"j"], "r": [b"r", b"z"], "tilde": [b"~"], "cw": [b"c", b"w", b"q", b"\x1b"],
+      "x3": [b"3", b"x"], "X2": [b"2", b"X"], "dw2": [b"2", b"d", b"w"], "p2": [b"2", b"p"], "tilde2": [b"2", b"~"], "r3": [b"3", b"r", b"z"], "d2w": [b"d", b"2", b"w"]}
 
 
 def model_check(rep, tier, wd):
